@@ -491,6 +491,15 @@ class World(object):
         os.makedirs(os.path.join(self.root, 'cwd'), exist_ok=True)
         for x in st['dirs']:
             os.makedirs(self.dpath(x['r'], x['d']), exist_ok=True)
+        # volumes and directories owned by a uid / gid without passwd / group entry (a disk from another machine)
+        if os.geteuid() == 0 and random.Random('owner|%s' % conc.variant_seed).random() < 0.3:
+            for r in REGIONS:
+                if r != 'R' and os.path.isdir(self.rpath(r)):
+                    for dd in [self.rpath(r)] + [self.dpath(x['r'], x['d']) for x in st['dirs'] if x['r'] == r]:
+                        try:
+                            os.lchown(dd, 61234, 61235)
+                        except OSError:
+                            pass
         # .Trash states
         for v in cfg['mounted']:
             ts = cfg['top'][v]
